@@ -37,10 +37,16 @@ def build(thorough):
 
     nmax = 5 if thorough else 4
     # pin depth of the leading edge booleans per number of tasks (keeps every process below ~1/3 of its budget)
-    for func, pins in (('exec_add', {4: 2, 5: 5}), ('exec_context', {4: 2, 5: 6}), ('replace_task', {4: 2, 5: 6})):
-        for n in range(1, nmax + 1):
+    for func, pins, top in (('exec_add', {4: 2, 5: 5}, nmax), ('exec_context', {4: 2, 5: 6}, nmax),
+                            ('replace_task', {4: 2}, 4)):
+        for n in range(1, top + 1):
             for e in bits(pins.get(n, 0)):
-                add(func, f'N={n}' + (f',E={e}' if e else ''), dict(VH_N=n, VH_EPIN=e))
+                env = dict(VH_N=n, VH_EPIN=e)
+                label = f'N={n}' + (f',E={e}' if e else '')
+                if func == 'exec_context' and n == 5:
+                    env['VH_CPIN'] = 'xxx00'        # t3, t4 never take `context` (cost)
+                    label += ',ctx=xxx00'
+                add(func, label, env)
     # static-input arities 0,2,1,3,0 (shape B), predecessor lists in canonical form
     for n in ((4, 5) if thorough else (4,)):
         for e in bits(1 if n == 4 else 3):
@@ -78,7 +84,7 @@ def build(thorough):
     heavy = {'insert_workflow': 0, 'exec_context': 1, 'replace_task': 2, 'add_operator': 3, 'exec_add': 4}
     obs.sort(key=lambda o: (o.kind == 'twin', -int(o.env.get('VH_N', 0)) - int(o.env.get('VH_NA', 0))
                             - int(o.env.get('VH_NB', 0)), heavy.get(o.func, 5)))
-    return obs, nmax
+    return obs, nmax, iw, ao
 
 
 def key_of(ob, call, rep):
@@ -94,7 +100,7 @@ def main():
         with open(extra) as f:
             run.known += [e for e in json.load(f).get('findings', []) if e.get('property') == 'C17']
     thorough = run.tier == 'thorough'
-    obs, nmax = build(thorough)
+    obs, nmax, iw, ao = build(thorough)
     run.functions = ['WorkflowBuilder.__init__', 'WorkflowBuilder.add_task', 'WorkflowBuilder.insert_workflow',
                      'WorkflowBuilder.replace_task', 'WorkflowBuilder.__add__', 'Workflow.__init__',
                      'Workflow.__add__', 'Workflow.as_dask_dict', 'WorkflowBase.tasks/input_tasks/output_tasks/'
@@ -105,11 +111,15 @@ def main():
         static_inputs='unbounded symbolic ints, one per task (shape A) or arities 0,2,1,3,0 (shape B); strings '
                       f'of <= {12 if thorough else 8} arbitrary characters on a 3-task family',
         add_task='predecessor lists ascending or reversed, a lone predecessor as list or as Task',
-        context='every subset of tasks taking `context`, symbolic context value, through the real execute_workflow',
-        replace_task='every task position',
+        context='every subset of tasks taking `context`' + (' (5 tasks: subsets of t0..t2 only)' if thorough else '')
+                + ', symbolic context value, through the real execute_workflow',
+        replace_task='every task position, <= 4 tasks',
+        insert_context_structure=f'<= {4 if thorough else 3} tasks',
         insert_workflow='A and B of <= 3 tasks each with symbolic edges; predecessors None / one Task / non-empty '
-                        'sublist of A ascending or reversed' + ('' if thorough else
-                                                                '; quick: the sizes and A-shapes listed in samples'),
+                        'sublist of A ascending or reversed; cases (NA, NB, predecessors mode 0 None/1 Task/2 list, '
+                        'pinned A edges a01a02a12): ' + ('all 27 size/mode combinations, A edges symbolic or '
+                                                         'exhaustively pinned' if thorough else str(iw)),
+        add_operator_cases='all 9 size combinations' if thorough else str(ao),
         add_operator='A, B of <= 3 tasks, disjoint or sharing one task, builder+workflow and workflow+workflow',
         outside='more tasks; the dask schedulers themselves (result of a pure dataflow graph is schedule independent '
                 'by dask\'s contract; counterexamples are replayed on dask.threaded.get); '
